@@ -1,1 +1,34 @@
-From VP Require Import Base.Tactics Window.Model Window.Run Window.Props.
+From Coq Require Import Sorted.
+From VP Require Import Base.Tactics Window.Model Window.Run Window.Spec Window.Props.
+Open Scope Z_scope.
+
+Check (C13_time_sliding : forall size slide es,
+  in_order es ->
+  fst (run (init (KSliding size slide)) (map Add es)) = map of_opt (time_schedule size slide [] None es)).
+Print Assumptions C13_time_sliding.
+
+Check (C13_count_sliding : forall size slide es,
+  fst (run (init (KSlidingCount size slide)) (map Add es)) = map of_opt (count_schedule size slide [] 0 es)).
+Print Assumptions C13_count_sliding.
+
+Check (C13_time_sliding_partitioned : forall size slide es k,
+  in_order (of_key k es) ->
+  pick k es (fst (run (init (KPSliding size slide)) (map Add es)))
+  = map of_opt (time_schedule size slide [] None (of_key k es))).
+Print Assumptions C13_time_sliding_partitioned.
+
+Check (C13_count_sliding_partitioned : forall size slide es k,
+  pick k es (fst (run (init (KPSlidingCount size slide)) (map Add es)))
+  = map of_opt (count_schedule size slide [] 0 (of_key k es))).
+Print Assumptions C13_count_sliding_partitioned.
+
+Check (C13_time_contents : forall size slide es i e l,
+  in_order es -> nth_error es i = Some e ->
+  nth_error (fst (run (init (KSliding size slide)) (map Add es))) i = Some (OWin l) ->
+  l = filter (fun x => ets e - size <=? ets x) (firstn (S i) es)).
+Print Assumptions C13_time_contents.
+
+Check (C13_count_contents : forall size slide es i l,
+  nth_error (fst (run (init (KSlidingCount size slide)) (map Add es))) i = Some (OWin l) ->
+  l = lastn size (firstn (S i) es) /\ (size <= length (firstn (S i) es))%nat).
+Print Assumptions C13_count_contents.
